@@ -1,6 +1,7 @@
 package main
 
 import (
+	"sort"
 	"crypto/sha256"
 	"encoding/hex"
 	"fmt"
@@ -483,19 +484,142 @@ func (e *env) ubiProposal(name string, amt, period uint64) bool {
 }
 
 func (e *env) tipRequest(u, verifier int, tip int64) bool {
-	ctx := e.ctx()
-	id := e.c.App.CustomGovKeeper.GetLastIdRecordVerifyRequestId(ctx) + 1
 	var ids []uint64
-	for _, r := range e.c.App.CustomGovKeeper.GetIdRecordsByAddress(ctx, e.accAddr(u)) {
+	for _, r := range e.c.App.CustomGovKeeper.GetIdRecordsByAddress(e.ctx(), e.accAddr(u)) {
 		ids = append(ids, r.Id)
 	}
 	if len(ids) > 1 && e.r.Bool() {
 		ids = ids[:1]
 	}
-	ids = e.perturbIDs(ids) // record ids: repeated, or none
-	return e.tx("tip_request", u, []sdk.Msg{govtypes.NewMsgRequestIdentityRecordsVerify(e.accAddr(u), e.accAddr(verifier), ids, coin("ukex", tip))},
-		[]string{fmt.Sprintf("TipRequest %d %d 0 %d", 100+u, id, tip)}, map[string]interface{}{"account": u, "verifier": verifier, "tip": tip})
+	return e.tipRequestIDs(u, verifier, e.perturbIDs(ids), tip) // record ids: repeated, or none
 }
+func (e *env) tipRequestIDs(u, verifier int, ids []uint64, tip int64) bool {
+	id := e.c.App.CustomGovKeeper.GetLastIdRecordVerifyRequestId(e.ctx()) + 1
+	return e.tx("tip_request", u, []sdk.Msg{govtypes.NewMsgRequestIdentityRecordsVerify(e.accAddr(u), e.accAddr(verifier), ids, coin("ukex", tip))},
+		[]string{fmt.Sprintf("TipRequest %d %d 0 %d", 100+u, id, tip)}, map[string]interface{}{"account": u, "verifier": verifier, "tip": tip, "record_ids": ids})
+}
+
+// the pending verify requests of `u` that name one of the records `affected`: RegisterIdentityRecords / DeleteIdentityRecords
+// cancel them (tip refunded to the requester)
+func (e *env) autoCancelModel(u int, affected map[uint64]bool) []string {
+	var model []string
+	for _, rq := range e.c.App.CustomGovKeeper.GetAllIdRecordsVerifyRequests(e.ctx()) {
+		if rq.Address != e.addr(u) {
+			continue
+		}
+		for _, rid := range rq.RecordIds {
+			if affected[rid] {
+				model = append(model, fmt.Sprintf("TipCancel %d %d %d", 100+u, rq.Id, e.denID(rq.Tip.Denom)))
+				break
+			}
+		}
+	}
+	if model == nil {
+		model = []string{fmt.Sprintf("BankSend %d %d 0 0", 100+u, 100+u)} // no coins may move
+	}
+	return model
+}
+
+// (re-)register identity records: same value (only the record date moves), or a new value (pending requests naming the
+// record are cancelled and refunded)
+func (e *env) idRegister(u int, kv map[string]string) bool {
+	ctx := e.ctx()
+	affected := map[uint64]bool{}
+	var infos []govtypes.IdentityInfoEntry
+	for _, k := range sortedKeys(kv) {
+		infos = append(infos, govtypes.IdentityInfoEntry{Key: k, Info: kv[k]})
+		if rid := e.c.App.CustomGovKeeper.GetIdentityRecordIdByAddressKey(ctx, e.accAddr(u), k); rid != 0 {
+			if rec := e.c.App.CustomGovKeeper.GetIdentityRecordById(ctx, rid); rec == nil || rec.Value != kv[k] {
+				affected[rid] = true
+			}
+		}
+	}
+	return e.tx("id_register", u, []sdk.Msg{govtypes.NewMsgRegisterIdentityRecords(e.accAddr(u), infos)}, e.autoCancelModel(u, affected),
+		map[string]interface{}{"account": u, "records": kv, "changed_record_ids": len(affected)})
+}
+
+func (e *env) idDelete(u int, keys []string) bool {
+	ctx := e.ctx()
+	affected := map[uint64]bool{}
+	for _, rec := range e.c.App.CustomGovKeeper.GetIdRecordsByAddress(ctx, e.accAddr(u)) {
+		hit := len(keys) == 0
+		for _, k := range keys {
+			hit = hit || k == rec.Key
+		}
+		if hit {
+			affected[rec.Id] = true
+		}
+	}
+	return e.tx("id_delete", u, []sdk.Msg{govtypes.NewMsgDeleteIdentityRecords(e.accAddr(u), keys)}, e.autoCancelModel(u, affected),
+		map[string]interface{}{"account": u, "keys": keys})
+}
+
+func sortedKeys(m map[string]string) []string {
+	var ks []string
+	for k := range m {
+		ks = append(ks, k)
+	}
+	sort.Strings(ks)
+	return ks
+}
+
+// ---------------------------------------------------------------- edits of the objects escrows hang on, between creation and settlement
+func (e *env) setProperty(prop govtypes.NetworkProperty, val uint64) bool {
+	nop := []string{"BankSend 100 100 0 0"}
+	return e.proposal("set_property", govtypes.NewSetNetworkPropertyProposal(prop, govtypes.NetworkPropertyValue{Value: val}), nop,
+		map[string]interface{}{"property": prop.String(), "value": val})
+}
+
+func (e *env) spUpdate(pool string, rateMilli int64, dropRole bool) bool {
+	p := e.c.App.SpendingKeeper.GetSpendingPool(e.ctx(), pool)
+	if p == nil {
+		return false
+	}
+	ben := *p.Beneficiaries
+	if dropRole {
+		ben.Roles = nil
+	}
+	rates := sdk.NewDecCoins(sdk.NewDecCoinFromDec("ukex", sdk.NewDecWithPrec(rateMilli, 3)), sdk.NewDecCoinFromDec("xeth", sdk.NewDecWithPrec(rateMilli, 4)))
+	return e.proposal("sp_update", spendingtypes.NewUpdateSpendingPoolProposal(pool, p.ClaimStart, p.ClaimEnd, rates, p.VoteQuorum, p.VotePeriod, p.VoteEnactment, *p.Owners, ben, false, 0),
+		[]string{"BankSend 100 100 0 0"}, map[string]interface{}{"pool": pool, "rate_milli": rateMilli, "drop_role": dropRole})
+}
+
+func (e *env) collUpdate(pools []collectivestypes.WeightedSpendingPool, claimPeriod uint64) bool {
+	c := e.c.App.CollectivesKeeper.GetCollective(e.ctx(), "coll1")
+	return e.proposal("coll_update", collectivestypes.NewProposalCollectiveUpdate("coll1", "edited", c.Status, c.DepositWhitelist, c.OwnersWhitelist, pools,
+		c.ClaimStart, claimPeriod, c.ClaimEnd, c.VoteQuorum, c.VotePeriod, c.VoteEnactment), nil, map[string]interface{}{"pools": len(pools), "claim_period": claimPeriod})
+}
+
+// ProposalUpsertDapp carries a whole Dapp value: content drafted from the dApp as it was at `draft` time (the proposer copies
+// what he sees; bonds may move between drafting and enactment)
+func (e *env) dappUpsert(draft *l2types.Dapp) bool {
+	if draft == nil {
+		return false
+	}
+	d := *draft
+	d.Description = "edited"
+	return e.proposal("dapp_upsert", &l2types.ProposalUpsertDapp{Dapp: d}, nil, map[string]interface{}{"drafted_total_bond": d.TotalBond.String()})
+}
+
+func (e *env) basketEdit(weightUbtc int64, swapFeePct int64) bool {
+	b, err := e.c.App.BasketKeeper.GetBasketById(e.ctx(), e.bk)
+	if err != nil {
+		return false
+	}
+	nb := b
+	nb.Tokens = append([]baskettypes.BasketToken{}, b.Tokens...)
+	for i := range nb.Tokens {
+		if nb.Tokens[i].Denom == "ubtc" {
+			nb.Tokens[i].Weight = sdk.NewDec(weightUbtc)
+		}
+		nb.Tokens[i].Amount = sdk.ZeroInt() // the proposer cannot set reserves
+	}
+	nb.SwapFee = sdk.NewDecWithPrec(swapFeePct, 2)
+	nb.Amount = sdk.NewInt(12345)
+	nb.Surplus = nil
+	return e.proposal("basket_edit", baskettypes.NewProposalEditBasket(nb), []string{"BankSend 100 100 0 0"}, map[string]interface{}{"basket": e.bk, "weight_ubtc": weightUbtc, "swap_fee_pct": swapFeePct})
+}
+
 func (e *env) tipHandle(v int, id uint64, approve bool) bool {
 	return e.tx("tip_handle", v, []sdk.Msg{govtypes.NewMsgHandleIdentityRecordsVerifyRequest(e.accAddr(v), id, approve)},
 		[]string{fmt.Sprintf("TipHandle %d %d 0", 100+v, id)}, map[string]interface{}{"verifier": v, "request": id, "approve": approve})
